@@ -153,6 +153,26 @@ split; by rewrite mulmxA -(mulmxA A^T) -perm_mxM mulVg perm_mx1 mulmx1.
 Qed.
 End Order.
 
+(* ------------------------------------------------------------------ order of the equations, Hermitian form *)
+(* The C code (vnacommon_qrsolve2 on complex data) minimises the Hermitian norm |A x - b|^2, whose normal
+   equations are A^H A x = A^H b with A^H the CONJUGATE transpose.  cj is any ring morphism of the field
+   (complex conjugation in the intended reading; the identity gives the bilinear form A^T A of
+   order_irrelevant_normal above). *)
+Section OrderHermitian.
+Variables (m n : nat) (s : 'S_m) (A : 'M[F]_(m, n)) (b : 'M[F]_(m, 1)).
+Variable cj : {rmorphism F -> F}.
+
+Definition adjoint (p q : nat) (X : 'M[F]_(p, q)) : 'M[F]_(q, p) := map_mx cj X^T.
+
+Lemma order_irrelevant_normal_hermitian :
+  adjoint (row_perm s A) *m row_perm s A = adjoint A *m A /\
+  adjoint (row_perm s A) *m row_perm s b = adjoint A *m b.
+Proof.
+rewrite /adjoint !row_permE !trmx_mul !map_mxM tr_perm_mx map_perm_mx.
+split; by rewrite mulmxA -(mulmxA (map_mx cj A^T)) -perm_mxM mulVg perm_mx1 mulmx1.
+Qed.
+End OrderHermitian.
+
 Section OrderSquare.
 Variables (n : nat) (s : 'S_n) (A : 'M[F]_n) (b : 'M[F]_(n, 1)).
 
@@ -260,5 +280,32 @@ split; first exact: oner_neq0.
 - by rewrite scaler0 mul0mx add0r scale1r unitmx1.
 Qed.
 End Satisfiable.
+
+(* ------------------------------------------------------------------ C17: the hypotheses are satisfiable *)
+Section C17Satisfiable.
+Variables (n : nat) (s : 'S_n).
+
+(* ab_scaling with A = 1 and D = a permutation of the columns *)
+Lemma ab_scaling_satisfiable (r : nat) (B : 'M[F]_(r, n)) :
+  (B *m perm_mx s) *m invmx (1%:M *m perm_mx s) = B *m invmx 1%:M.
+Proof. by apply: ab_scaling; rewrite ?unitmx1 ?unitmx_perm. Qed.
+
+(* order_irrelevant_square with A = 1 *)
+Lemma order_irrelevant_square_satisfiable (b : 'M[F]_(n, 1)) :
+  invmx (row_perm s 1%:M) *m row_perm s b = invmx 1%:M *m b.
+Proof. by apply: order_irrelevant_square; rewrite unitmx1. Qed.
+
+(* port_renumbering with P = a permutation matrix and the ideal VNA (Ts = Tm = 1, Ti = Tx = 0), any device S *)
+Lemma port_renumbering_satisfiable (S : 'M[F]_n) :
+  let P := perm_mx s : 'M[F]_n in
+  P *m S *m invmx P =
+    (P *m 1%:M *m invmx P *m (P *m S *m invmx P) + P *m 0 *m invmx P)
+    *m invmx (P *m 0 *m invmx P *m (P *m S *m invmx P) + P *m 1%:M *m invmx P).
+Proof.
+move=> P; apply: port_renumbering; first exact: unitmx_perm.
+- by rewrite mul0mx add0r unitmx1.
+- by rewrite mul0mx add0r invmx1 mulmx1 addr0 mul1mx.
+Qed.
+End C17Satisfiable.
 
 End CalAlgebra.
